@@ -1,0 +1,178 @@
+//! Verification seams (cargo feature `verif-hooks`; never enabled in normal builds).
+//!
+//! This module contains no policy.  Every function forwards to a hook object that an
+//! external harness installed for the *current thread*; without one it is a no-op.
+//! Hooks are thread-local so that unrelated threads (and the ordinary test-suite, should
+//! it ever be built with the feature) are never affected.
+
+use std::cell::RefCell;
+use std::io;
+use std::path::{Path, PathBuf};
+use std::sync::Arc;
+
+/// One file-system effect, reported *before* it is performed.
+#[derive(Debug, Clone, PartialEq, Eq)]
+pub enum IoOp {
+    /// `open(O_CREAT)`: the file comes into existence if it is absent.
+    Create { path: PathBuf },
+    /// Positional write.
+    Write {
+        path: PathBuf,
+        offset: u64,
+        data: Vec<u8>,
+        owner: &'static str,
+    },
+    /// Write at the current end of file.
+    Append { path: PathBuf, data: Vec<u8> },
+    SetLen { path: PathBuf, len: u64 },
+    /// `fsync` / `fdatasync` of one file.
+    Sync { path: PathBuf },
+    Rename { from: PathBuf, to: PathBuf },
+    Remove { path: PathBuf },
+    /// Whole-file copy (backup / restore).
+    Copy { from: PathBuf, to: PathBuf },
+    /// Page life-cycle notifications (no file-system effect of their own).
+    PageAlloc { path: PathBuf, page: u64, owner: &'static str },
+    PageFree { path: PathBuf, page: u64 },
+}
+
+pub trait Hooks: Send + Sync {
+    /// Called before every file-system effect.  `Err` is returned to the caller instead of
+    /// performing the effect (fault injection).
+    fn io_step(&self, _op: IoOp) -> io::Result<()> {
+        Ok(())
+    }
+    /// A point at which the controlled scheduler may switch threads.
+    fn sched_point(&self, _site: &'static str) {}
+    /// Called before a blocking lock acquisition.  `probe` answers "would the acquisition
+    /// succeed right now without blocking"; it stays valid until this call returns.
+    fn before_lock(&self, _name: &'static str, _probe: &dyn Fn() -> bool) {}
+    /// A named lock has been acquired / released by the current thread (lock-order graph).
+    fn lock_acquired(&self, _name: &'static str) {}
+    fn lock_released(&self, _name: &'static str) {}
+    /// Replacement for the wall clock (nanoseconds since the epoch).
+    fn now_nanos(&self) -> Option<i64> {
+        None
+    }
+    /// Replacement for the random HNSW level draw.
+    fn hnsw_level(&self) -> Option<usize> {
+        None
+    }
+    /// Replacement for "milliseconds elapsed since the query started".
+    fn elapsed_ms(&self) -> Option<u64> {
+        None
+    }
+}
+
+thread_local! {
+    static HOOKS: RefCell<Option<Arc<dyn Hooks>>> = const { RefCell::new(None) };
+    static IO_CTX: RefCell<Option<PathBuf>> = const { RefCell::new(None) };
+    static OWNER: RefCell<Vec<&'static str>> = const { RefCell::new(Vec::new()) };
+}
+
+/// Installs (or removes) the hook object of the current thread and returns the previous one.
+pub fn install(h: Option<Arc<dyn Hooks>>) -> Option<Arc<dyn Hooks>> {
+    HOOKS.with(|c| std::mem::replace(&mut *c.borrow_mut(), h))
+}
+
+#[inline]
+fn current() -> Option<Arc<dyn Hooks>> {
+    HOOKS.with(|c| c.borrow().clone())
+}
+
+#[inline]
+pub fn active() -> bool {
+    HOOKS.with(|c| c.borrow().is_some())
+}
+
+#[inline]
+pub fn io_step(op: impl FnOnce() -> IoOp) -> io::Result<()> {
+    match current() {
+        Some(h) => h.io_step(op()),
+        None => Ok(()),
+    }
+}
+
+/// Names the file that subsequent `io_append_ctx` calls of this thread write to.
+pub fn set_io_ctx(path: Option<&Path>) {
+    IO_CTX.with(|c| *c.borrow_mut() = path.map(|p| p.to_path_buf()));
+}
+
+pub fn io_append_ctx(data: &[u8]) -> io::Result<()> {
+    let Some(h) = current() else { return Ok(()) };
+    let path = IO_CTX.with(|c| c.borrow().clone()).unwrap_or_default();
+    h.io_step(IoOp::Append {
+        path,
+        data: data.to_vec(),
+    })
+}
+
+#[inline]
+pub fn sched_point(site: &'static str) {
+    if let Some(h) = current() {
+        h.sched_point(site);
+    }
+}
+
+#[inline]
+pub fn before_lock(name: &'static str, probe: &dyn Fn() -> bool) {
+    if let Some(h) = current() {
+        h.before_lock(name, probe);
+    }
+}
+
+/// RAII token: "the current thread holds lock `name`" (feeds the lock-order graph).
+pub struct Held(&'static str);
+
+pub fn held(name: &'static str) -> Held {
+    if let Some(h) = current() {
+        h.lock_acquired(name);
+    }
+    Held(name)
+}
+
+impl Drop for Held {
+    fn drop(&mut self) {
+        if let Some(h) = current() {
+            h.lock_released(self.0);
+        }
+    }
+}
+
+pub fn now_nanos() -> Option<i64> {
+    current().and_then(|h| h.now_nanos())
+}
+
+pub fn hnsw_level() -> Option<usize> {
+    current().and_then(|h| h.hnsw_level())
+}
+
+pub fn elapsed_ms() -> Option<u64> {
+    current().and_then(|h| h.elapsed_ms())
+}
+
+/// RAII scope naming the structure on whose behalf pages are written / allocated.
+pub struct OwnerScope;
+
+pub fn owner_scope(tag: &'static str) -> OwnerScope {
+    OWNER.with(|c| c.borrow_mut().push(tag));
+    OwnerScope
+}
+
+impl Drop for OwnerScope {
+    fn drop(&mut self) {
+        OWNER.with(|c| {
+            c.borrow_mut().pop();
+        });
+    }
+}
+
+pub fn current_owner() -> &'static str {
+    OWNER.with(|c| c.borrow().last().copied().unwrap_or(""))
+}
+
+/// `true` when `try_lock`/`try_read`/`try_write` did not report `WouldBlock`
+/// (a poisoned lock counts as free: `lock()` returns immediately on it).
+pub fn would_not_block<T>(r: Result<T, std::sync::TryLockError<T>>) -> bool {
+    !matches!(r, Err(std::sync::TryLockError::WouldBlock))
+}
